@@ -234,12 +234,38 @@ pub fn run(ctx: &Ctx) -> Outcome {
                 }
             }
         }
+        if i == 0 {
+            // one port object configured 70 000 times in a row (its settings disturbed in between): the last time
+            // like the first
+            let st = doubles::shared(prior);
+            let mut p = InstrPort::scripted(st.clone(), FragReader::plain(vec![]), FragWriter::new(vec![], WriteAct::Accept(usize::MAX)));
+            for k in 0..70_000u64 {
+                let t = Duration::from_micros(1 + k * 37);
+                let r = catch(|| flipdot_serial::configure_port(&mut p, t).map_err(|e| e.to_string()));
+                let ok = {
+                    let s = st.borrow();
+                    matches!(r, Ok(Ok(()))) && s.settings == TARGET && s.timeout == Some(t)
+                };
+                if !ok {
+                    let s = st.borrow();
+                    rep.violation(MON, "repeated_setup", &format!("repeat-{}", k), format!("configure_port call #{} on one port object: result {:?}, settings {:?}, timeout {:?} (asked for {:?})", k, r.map_err(|p| p.msg), s.settings, s.timeout, t), J::obj(vec![("call", J::Int(k as i128))]));
+                    break;
+                }
+                let mut s = st.borrow_mut();
+                s.log.clear();
+                s.settings = priors[(k as usize * 7) % priors.len()];
+                s.timeout = None;
+                drop(s);
+                rep.count("repeated_setups_of_one_port");
+            }
+        }
         rep.count("priors_done");
     });
     let mut floors = vec![
         floor("all 864 prior settings", report.get("priors_done") == 864, report.get("priors_done")),
         floor("transient (one- and two-shot) refusals at every fault point for every prior", report.get("transient_fault_cases") == 864 * 3 * 4 * 2, report.get("transient_fault_cases")),
         floor("sub-millisecond, fractional and very long caller timeouts", report.get("unusual_timeouts_applied") == 108 * 10, report.get("unusual_timeouts_applied")),
+        floor("one port object configured 70 000 times", report.get("repeated_setups_of_one_port") == 70_000, report.get("repeated_setups_of_one_port")),
         floor("every error kind (7, incl. Interrupted) at every fault point (4)", report.set_len("fault_kind_x_point") == 28, report.set_len("fault_kind_x_point")),
     ];
     for e in ["configure_port", "SerialSignBus", "Odk"] {
